@@ -258,6 +258,9 @@ pub enum At {
     /// terminal->client packet counted from the first packet sent on it in this call: a fault that creeps forward by
     /// `step` packets with every re-connection
     Creeping { offset: usize, step: usize },
+    /// in the a-th exchange of this kind within the call (a = 0, 1, ...): at its (a * step + offset)-th packet (0 = the
+    /// acknowledgement): every re-sent exchange gets `step` replies further than the one before
+    CreepingIn { cmd: Cmd, offset: usize, step: usize },
 }
 
 #[derive(Clone, Debug, PartialEq)]
@@ -782,6 +785,10 @@ fn next_tx_action(sh: &mut Shared, cmd: Cmd, reply_idx: usize, conn: usize) -> T
             At::Tx(i) => *i == idx,
             At::Point(c, r) => *c == cmd && *r == reply_idx,
             At::PointOnce(c, r) => *c == cmd && *r == reply_idx && !sh.fired.contains(&fi),
+            At::CreepingIn { cmd: c, offset, step } => {
+                let attempts = sh.tx_points.iter().filter(|p| p.call == call && p.cmd == *c && p.reply_idx == 0).count();
+                *c == cmd && attempts >= 1 && reply_idx == (attempts - 1) * step + offset
+            }
             At::Creeping { offset, step } => {
                 // connections of this call in order of first use; packets already sent on this one in this call
                 let mut conns: Vec<usize> = vec![];
